@@ -63,6 +63,18 @@ harness(void)
 	V_LOAD_INPUTS();
 	V_ASSUME(IN.size >= 0 && IN.size <= MAXSZ);
 	V_ASSUME(IN.unsorted == 0 || IN.unsorted == 1);
+#ifdef NO_PARTIAL_JUMBO
+	/* Twin query: CBMC checks the whole 16-byte union for `ev->payload.jumbo.size`, so a jumbo
+	 * header with 4..15 bytes behind it fails that check although only 4 bytes are read.  Here
+	 * such byte patterns are excluded: the size word is either fully backed or really missing
+	 * (< 4 bytes behind the header), and a failure of that check is a genuine over-read. */
+	for (int64_t o = 8; o < MAXSZ; o++) {
+		if (o < IN.size && (IN.buf[o] & 0x10)) {
+			int64_t rem = IN.size - (o + 12);
+			V_ASSUME(!(rem >= 4 && rem < 16));
+		}
+	}
+#endif
 	/* The file image is END-ALIGNED inside a MAXSZ-byte heap object, so every access past
 	 * byte size-1 is an out-of-object access (CBMC pointer check / ASan in replay).  A
 	 * malloc of symbolic size made the propositional reduction diverge (>5 min). */
